@@ -94,8 +94,13 @@ def gen_plan(seed, tier):
       fs, port = r.pick(frames)
       if r.chance(0.3):
         port = r.randint(1, nports)
-      if r.chance(0.05):
-        fs = dict(fs, dst="0180c2000000")
+      if r.chance(0.08):
+        # the spanning-tree group address and its neighbours in the
+        # reserved block (only ...:00 is exempt from NO_RECV / subject to
+        # NO_RECV_STP)
+        fs = dict(fs, dst=r.pick(["0180c2000000", "0180c2000000",
+                                  "0180c2000001", "0180c200000e",
+                                  "0180c200000f", "0180c2000010"]))
       steps.append({"op": "frame", "port": port, "f": fs,
                     "with_data": r.chance(0.6)})
     elif k == "packet_out":
